@@ -284,13 +284,13 @@ def oracle(case, out):
         return None
     sig = "oracle:malformed-not-rejected:" + kind
     if kind == "ext-trailing-bws":
-        # where did reads end?  (the known defect needs a read ending inside the BWS run after the extension)
+        # where did reads end?  (the known defect needs a read ending inside, or at either end of, the BWS run after the extension)
         bws_start = ref[4]
         ends = set(); acc = 0
         for n, _ in sched:
             acc += n; ends.add(min(acc, len(enc)))
         hi = pos + (1 if relaxed else 0)
-        sig += ":read-ends-inside-bws" if any(bws_start < e <= hi for e in ends) else ":whole"
+        sig += ":read-ends-inside-bws" if any(bws_start <= e <= hi for e in ends) else ":whole"
     went_past = len(got) > len(body) and got.startswith(body)
     if not went_past and not body.startswith(got):
         return ("oracle:body-wrong", "decoded output is not a prefix of the body encoded before the malformation")
